@@ -2,7 +2,6 @@ package main
 
 import (
 	"fmt"
-	"go/token"
 	"go/types"
 	"sort"
 	"strings"
@@ -13,10 +12,10 @@ import (
 func init() {
 	register(&propDef{
 		id: "C40", run: runC40, minOblig: 28,
-		explanation: "Decides sibling rules over EVERY type in package ssh that implements ssh.PublicKey (found through go/types, not by name): each Verify method returns nil only (i) behind the signature-format test on its success edge — sig.Format == k.Type(), or membership in algorithmsForKeyFormat(k.Type()) for RSA — and (ii) behind the success edge of the primitive verifier (rsa.VerifyPKCS1v15, dsa.Verify, ecdsa.Verify, ed25519.Verify) or by returning the inner key's Verify(data, sig) verbatim (Certificate); (iii) the bytes verified derive from the data parameter: raw for Ed25519, hashed with hashFunc(sig.Format) otherwise (a hash Write of the data parameter precedes the Sum that feeds the primitive); DSA accepts only 40-byte blobs (evaluated); (iv) for the two security-key types, finite-domain evaluation over all 256 flag bytes x noTouchRequired shows the primitive is reached exactly when flags&1 != 0 or the opt-out is set, and the flags byte verified inside the reconstructed U2F blob is the received one; noTouchRequired is written only by skKeyWithoutUP, on a fresh copy; (v) signers: wrappedSigner / multiAlgorithmSigner.SignWithAlgorithm refuse algorithms outside their lists before delegating. NOT decided: the cryptographic primitives themselves.",
-		assumptions: []string{"crypto/rsa, crypto/dsa, crypto/ecdsa, crypto/ed25519 verification contracts"},
+		explanation: "Decides sibling rules over EVERY type in package ssh that implements ssh.PublicKey (found through go/types, not by name) by abstract INTERPRETATION of its Verify method (pathWalker; helpers of package ssh interpreted in place, so the verdicts do not depend on how the code is factored, on names of locals/parameters/receivers or on the form of a test): strings (sig.Format, the key's Type(), all string constants) are interned identities, errors are nil/non-nil, byte strings carry a content description in a concatenation normal form (data, sig.Blob, u8:n, H[hash](...), a||b; ssh.Marshal, append, []byte{...}, successive hash Writes and binary.BigEndian.AppendUint32 all reduce to it); ssh.Marshal/ssh.Unmarshal, the hash selector (string -> crypto.Hash), hash.Hash Write/Sum/Reset and the primitive verifiers (rsa.VerifyPKCS1v15, dsa.Verify, ecdsa.Verify, ed25519.Verify) are modelled, every parse/lookup is assumed to succeed so that each gate is judged on its own. Per implementation: (i) over the key's own type and 22 protocol format names, Verify returns nil exactly for the formats allowed for the key type (its own name; ssh-rsa, rsa-sha2-256, rsa-sha2-512 for RSA); (ii) nil is returned only when the primitive verifier accepts (both verdicts interpreted), or the inner key's Verify(data, sig) decides verbatim (Certificate); (iii) the bytes handed to the primitive are the data parameter: raw for Ed25519, otherwise hashed with the hash selected by sig.Format, and for the security-key types the U2F blob H(application)||flags||counter||H(data); DSA accepts only 40-byte blobs (lengths 0,20,39,40,41,80 interpreted); (iv) for the security-key types (Type() starts with sk-), all 256 flag bytes x noTouchRequired: the primitive is reached and nil returned exactly when flags&1 != 0 or the opt-out is set, and the flags byte inside the verified blob is the received one; the opt-out field is written only in skKeyWithoutUP (or a helper reachable only from it), on a fresh copy; (v) signers: wrappedSigner / multiAlgorithmSigner.SignWithAlgorithm are interpreted over (list, key type, requested algorithm) cases and invoke the underlying signer exactly when the requested algorithm (for \"\": the key's own, certificate names mapped through the package's table) is in the list. Every protocol key type named by the property must have an implementation. NOT decided: the cryptographic primitives themselves, the hash selector's own table.",
+		assumptions: []string{"crypto/rsa, crypto/dsa, crypto/ecdsa, crypto/ed25519 verification contracts", "ssh.Marshal / ssh.Unmarshal encode and decode struct fields in order", "the hash selector maps the security-key formats to SHA-256"},
 	})
-	tech("C40", "interface-implementation enumeration via go/types + per-implementation must-cross CFG rules + finite-domain evaluation of the user-presence gate")
+	tech("C40", "interface-implementation enumeration via go/types + per-implementation abstract interpretation (pathWalker, helpers in place) of format gate, primitive verdict, verified content and the user-presence gate over finite input domains")
 }
 
 func runC40(c *Ctx) {
@@ -48,12 +47,32 @@ func runC40(c *Ctx) {
 	}
 	sort.Slice(impls, func(i, j int) bool { return impls[i].String() < impls[j].String() })
 	c.check(len(impls) >= 7, "C40.impls", "implementations of ssh.PublicKey", nil, fmt.Sprintf("%d implementations found", len(impls)), fmt.Sprintf("only %d implementations of ssh.PublicKey found, expected >= 7", len(impls)))
-	prim := map[string]predKind{
-		"crypto/rsa.VerifyPKCS1v15": isNil,
-		"crypto/dsa.Verify":         isTrue,
-		"crypto/ecdsa.Verify":       isTrue,
-		"crypto/ed25519.Verify":     isTrue,
+	m := newC40Model(c, sp)
+	// every key type of the property has an implementation whose Type() is that name
+	// (ECDSA: a Type() that depends on the curve)
+	have := map[string]bool{}
+	abstract := 0
+	var skTypes []types.Type
+	for _, T := range impls {
+		kt := m.typeOf(T)
+		have[kt] = true
+		if strings.HasPrefix(kt, "\x00") {
+			abstract++
+		}
+		if strings.HasPrefix(kt, "sk-") {
+			skTypes = append(skTypes, T)
+		}
 	}
+	var missing []string
+	for _, kt := range []string{"ssh-rsa", "ssh-dss", "ssh-ed25519", "sk-ecdsa-sha2-nistp256@openssh.com", "sk-ssh-ed25519@openssh.com"} {
+		if !have[kt] {
+			missing = append(missing, kt)
+		}
+	}
+	if abstract == 0 && !have["ecdsa-sha2-nistp256"] {
+		missing = append(missing, "ecdsa-sha2-*")
+	}
+	c.check(len(missing) == 0, "C40.impls", "key types of the property", nil, "RSA, DSA, ECDSA, Ed25519 and both security-key types each have a PublicKey implementation (classified by the interpreted value of Type())", "no PublicKey implementation whose Type() evaluates to "+strings.Join(missing, ", "))
 	for _, T := range impls {
 		sel := c.ld.prog.MethodSets.MethodSet(T).Lookup(sp.Pkg, "Verify")
 		if sel == nil {
@@ -73,333 +92,103 @@ func runC40(c *Ctx) {
 			c.funcsSeen = map[string]bool{}
 		}
 		c.funcsSeen["ssh."+fnName(f)] = true
-		acc := acceptReturns(f, 0)
-		data, sig := f.Params[1], f.Params[2]
-		// delegation: return inner.Verify(data, sig)
-		deleg := false
-		for _, r := range returnsOf(f) {
-			if call, ok := r.Results[0].(*ssa.Call); ok && call.Call.IsInvoke() && call.Call.Method.Name() == "Verify" {
-				if call.Call.Args[0] == ssa.Value(data) && call.Call.Args[1] == ssa.Value(sig) {
-					deleg = true
-				}
-			}
-		}
-		if deleg && len(returnsOf(f)) == 1 {
-			c.ok("C40.verify", tname+".Verify", f, "returns the embedded key's Verify(data, sig) verbatim")
+		if len(f.Params) != 3 {
+			c.fail("anchor", tname+".Verify", f, "unexpected signature")
 			continue
 		}
-		// (i) format test
-		var fmtPass []edge
-		allInstrs(f, func(in ssa.Instruction) {
-			switch x := in.(type) {
-			case *ssa.BinOp:
-				if x.Op != token.EQL && x.Op != token.NEQ {
-					return
-				}
-				isFmt := func(v ssa.Value) bool {
-					_, fld, base, ok := fieldOf(v)
-					return ok && fld == "Format" && base == ssa.Value(sig)
-				}
-				isType := func(v ssa.Value) bool {
-					call, ok := v.(*ssa.Call)
-					return ok && strings.HasSuffix(calleeName(&call.Call), ".Type") && len(call.Call.Args) == 1 && call.Call.Args[0] == ssa.Value(f.Params[0])
-				}
-				if (isFmt(x.X) && isType(x.Y)) || (isFmt(x.Y) && isType(x.X)) {
-					y, _ := boolEdges(x, x.Op == token.EQL)
-					fmtPass = append(fmtPass, y...)
-				}
-			case *ssa.Call:
-				if short(calleeName(&x.Call)) == "slices.Contains" {
-					_, fld, base, ok := fieldOf(x.Call.Args[1])
-					if !ok || fld != "Format" || base != ssa.Value(sig) {
-						return
-					}
-					if inner, ok := x.Call.Args[0].(*ssa.Call); ok && short(calleeName(&inner.Call)) == "ssh.algorithmsForKeyFormat" {
-						if tc, ok := inner.Call.Args[0].(*ssa.Call); ok && strings.HasSuffix(calleeName(&tc.Call), ".Type") {
-							y, _ := successEdges(x, 0, isTrue)
-							fmtPass = append(fmtPass, y...)
-						}
-					}
-				}
-			}
-		})
-		c.mustCross("C40.format", tname+".Verify", f, acc, fmtPass, "the signature format test (sig.Format vs the key's type)")
-		// (ii) primitive
-		var primPass []edge
-		var primCalls []*ssa.Call
-		for n, k := range prim {
-			for _, ci := range callsNamed(f, n) {
-				call := ci.(*ssa.Call)
-				primCalls = append(primCalls, call)
-				idx := 0
-				if k == isNil {
-					idx = call.Call.Signature().Results().Len() - 1
-				}
-				y, _ := successEdges(call, idx, k)
-				primPass = append(primPass, y...)
-			}
-		}
-		// a return of the primitive's own error value is accepting only if the primitive accepted
-		var accP []ssa.Instruction
-		direct := false
-		for _, t := range acc {
-			isPrim := false
-			for _, pc := range primCalls {
-				if t.(*ssa.Return).Results[0] == ssa.Value(pc) {
-					isPrim = true
-				}
-			}
-			if isPrim {
-				direct = true
-			} else {
-				accP = append(accP, t)
-			}
-		}
-		if direct && len(accP) == 0 {
-			c.ok("C40.primitive", tname+".Verify", f, "the only possibly-nil return is the primitive verifier's own result")
-		} else {
-			c.mustCross("C40.primitive", tname+".Verify", f, accP, primPass, "the success edge of the primitive signature verification")
-		}
-		// (iii) data provenance
-		dataOK := false
-		for _, pc := range primCalls {
-			n := short(calleeName(&pc.Call))
-			if n == "crypto/ed25519.Verify" && pc.Call.Args[1] == ssa.Value(data) {
-				dataOK = true
-			}
-		}
-		hashOK := false
-		for _, ci := range calls(f, func(n string) bool { return n == "invoke:(hash.Hash).Write" || n == "invoke:(io.Writer).Write" }) {
-			if ci.Common().Args[0] == ssa.Value(data) && isHashish(ci.Common().Value) {
-				// the hash comes from hashFunc(sig.Format).New()
-				hashOK = true
-			}
-		}
-		hf := callsNamed(f, "ssh.hashFunc")
-		hfOK := len(hf) == 1
-		if hfOK {
-			_, fld, base, ok := fieldOf(hf[0].Common().Args[0])
-			hfOK = ok && fld == "Format" && base == ssa.Value(sig)
-		}
-		if !dataOK {
-			dataOK = hashOK && hfOK
-			// the primitive's digest argument is a Sum result
-			for _, pc := range primCalls {
-				found := false
-				for _, a := range pc.Call.Args {
-					if call, ok := stripConv(a).(*ssa.Call); ok && strings.HasSuffix(calleeName(&call.Call), ".Sum") {
-						found = true
-					}
-					if sl, ok := a.(*ssa.Slice); ok {
-						if call, ok := sl.X.(*ssa.Call); ok && strings.HasSuffix(calleeName(&call.Call), ".Sum") {
-							found = true
-						}
-					}
-				}
-				if !found && short(calleeName(&pc.Call)) != "crypto/ed25519.Verify" {
-					dataOK = false
-				}
-			}
-		}
-		c.check(dataOK, "C40.data", tname+".Verify", f, "the primitive verifies the data parameter (raw, or hashed with hashFunc(sig.Format))", "the verified bytes do not derive from the data parameter / the hash is not hashFunc(sig.Format)")
-		// DSA blob length
-		if strings.Contains(tname, "dsaPublicKey") && !strings.Contains(tname, "ecdsa") {
-			bad := ""
-			for _, n := range []int64{0, 20, 39, 40, 41, 80} {
-				e := newEnv()
-				allInstrs(f, func(in ssa.Instruction) {
-					if call, ok := in.(*ssa.Call); ok && calleeName(&call.Call) == "builtin:len" {
-						if _, fld, _, ok := fieldOf(call.Call.Args[0]); ok && fld == "Blob" {
-							e.bind(call, n)
-						}
-					}
-				})
-				e.solve(f)
-				reached := false
-				for _, pc := range primCalls {
-					if e.reach[pc.Block()] {
-						reached = true
-					}
-				}
-				if reached != (n == 40) {
-					bad = fmt.Sprintf("blob of %d bytes: dsa.Verify reached=%v", n, reached)
-				}
-			}
-			c.check(bad == "", "C40.dsa-blob", tname+".Verify", f, "only 40-byte signature blobs reach dsa.Verify", bad)
-		}
-		// (iv) SK user presence
-		if strings.Contains(tname, "skECDSA") || strings.Contains(tname, "skEd25519") {
-			c40UserPresence(c, f, tname, primCalls)
-		}
+		m.checkVerify(T, f, tname)
 	}
-	// noTouchRequired writers
-	for _, typ := range []string{"skECDSAPublicKey", "skEd25519PublicKey"} {
-		for _, f := range c.funcsOfPkg("ssh") {
-			for _, st := range storesTo(f, typ, "noTouchRequired") {
-				okW := fnName(f) == "skKeyWithoutUP"
-				fresh := false
-				if fa, ok := st.Addr.(*ssa.FieldAddr); ok {
-					if al, ok := fa.X.(*ssa.Alloc); ok && al.Heap {
-						fresh = true
-					}
-				}
-				c.check(okW && fresh, "C40.no-touch-writer", typ+".noTouchRequired in "+fnName(f), st, "set only by skKeyWithoutUP on a fresh copy", "noTouchRequired is written outside skKeyWithoutUP or on a shared key value")
-			}
-		}
-	}
-	c40Signers(c)
+	c40NoTouchWriters(c, skTypes)
+	c40Signers(c, m)
 }
 
-func c40UserPresence(c *Ctx, f *ssa.Function, tname string, primCalls []*ssa.Call) {
-	// the flags byte: loads of skFields.Flags
-	var flagLoads []ssa.Value
-	allInstrs(f, func(in ssa.Instruction) {
-		if u, ok := in.(*ssa.UnOp); ok && u.Op == token.MUL {
-			if t, fld, _, ok := fieldOf(u); ok && t == "skFields" && fld == "Flags" {
-				flagLoads = append(flagLoads, u)
+// c40NoTouchWriters: the opt-out (the boolean field of a security-key type) is
+// set only on a fresh copy of the key, inside skKeyWithoutUP or a helper that
+// is reachable from nowhere else.
+func c40NoTouchWriters(c *Ctx, skTypes []types.Type) {
+	root := c.fnOpt("ssh", "skKeyWithoutUP")
+	var under func(g *ssa.Function, depth int) bool
+	under = func(g *ssa.Function, depth int) bool {
+		if g == nil || root == nil {
+			return false
+		}
+		if g == root {
+			return true
+		}
+		if depth > 3 || g.Object() == nil || g.Object().Exported() {
+			return false
+		}
+		cs := c.callersOf(g)
+		if len(cs) == 0 {
+			return false
+		}
+		for _, ci := range cs {
+			if !under(ci.Parent(), depth+1) {
+				return false
 			}
 		}
-	})
-	if len(flagLoads) == 0 || len(primCalls) == 0 {
-		c.fail("C40.user-presence", tname+".Verify", f, "flags byte or primitive call not found")
-		return
-	}
-	up, _ := pkgConstInt(c, "ssh", "flagUserPresence")
-	if up == 0 {
-		up = 1
-	}
-	bad := ""
-	n := 0
-	for d := int64(0); d < 256; d++ {
-		for nt := int64(0); nt < 2; nt++ {
-			e := newEnv()
-			for _, l := range flagLoads {
-				e.bind(l, d)
-			}
-			e.bindField(f, strings.TrimPrefix(strings.TrimPrefix(tname, "*ssh."), "ssh."), "noTouchRequired", nt)
-			// all error checks pass, format matches, key size ok
-			allInstrs(f, func(in ssa.Instruction) {
-				bo, ok := in.(*ssa.BinOp)
-				if !ok {
-					return
-				}
-				if (bo.Op == token.NEQ || bo.Op == token.EQL) && isNilConst(bo.Y) {
-					if _, isErr := bo.X.Type().Underlying().(*types.Interface); isErr {
-						if bo.Op == token.NEQ {
-							e.bind(bo, 0)
-						} else {
-							e.bind(bo, 1)
-						}
-					}
-				}
-				if bo.Op == token.NEQ || bo.Op == token.EQL {
-					if _, fld, _, ok := fieldOf(bo.X); ok && fld == "Format" {
-						if bo.Op == token.NEQ {
-							e.bind(bo, 0)
-						} else {
-							e.bind(bo, 1)
-						}
-					}
-					if call, ok := bo.X.(*ssa.Call); ok && calleeName(&call.Call) == "builtin:len" {
-						if bo.Op == token.NEQ {
-							e.bind(bo, 0)
-						} else {
-							e.bind(bo, 1)
-						}
-					}
-				}
-			})
-			e.solve(f)
-			reached := false
-			for _, pc := range primCalls {
-				if e.reach[pc.Block()] {
-					reached = true
-				}
-			}
-			want := d&up != 0 || nt == 1
-			n++
-			if reached != want && bad == "" {
-				bad = fmt.Sprintf("flags=%#02x noTouchRequired=%d: signature check reached=%v, specification (user presence bit or opt-out) %v", d, nt, reached, want)
-			}
-		}
-	}
-	c.check(bad == "", "C40.user-presence", tname+".Verify", f, fmt.Sprintf("user-presence gate correct on all %d (flags, opt-out) cases", n), bad)
-	// the flags inside the verified blob are the received flags
-	okBlob := false
-	allInstrs(f, func(in ssa.Instruction) {
-		if st, ok := in.(*ssa.Store); ok {
-			if _, fld, _, ok := fieldOf(st.Addr); ok && fld == "Flags" {
-				for _, l := range flagLoads {
-					if st.Val == l {
-						okBlob = true
-					}
-				}
-			}
-		}
-	})
-	c.check(okBlob, "C40.user-presence", tname+".Verify signed flags", f, "the flags byte inside the verified U2F blob is the received one", "the reconstructed signed blob does not carry the received flags byte")
-}
-
-func c40Signers(c *Ctx) {
-	for _, name := range []string{"(*wrappedSigner).SignWithAlgorithm", "(*multiAlgorithmSigner).SignWithAlgorithm"} {
-		f := c.fnOpt("ssh", name)
-		if f == nil {
-			c.fail("anchor", "ssh."+name, nil, "function not found")
-			continue
-		}
-		// every delegating/signing call lies behind a membership / equality test of the algorithm parameter
-		algo := f.Params[len(f.Params)-1]
-		var pass []edge
-		allInstrs(f, func(in ssa.Instruction) {
-			switch x := in.(type) {
-			case *ssa.Call:
-				n := short(calleeName(&x.Call))
-				if n == "slices.Contains" || strings.HasSuffix(n, ".isAlgorithmSupported") || n == "ssh.contains" {
-					for _, a := range x.Call.Args {
-						if fromParam(a, algo) {
-							y, _ := successEdges(x, 0, isTrue)
-							pass = append(pass, y...)
-						}
-					}
-				}
-			case *ssa.BinOp:
-				if _, isC := x.Y.(*ssa.Const); isC {
-					return // comparison with a constant (e.g. the empty default) is not a support test
-				}
-				if (x.Op == token.EQL || x.Op == token.NEQ) && (fromParam(x.X, algo) || fromParam(x.Y, algo)) {
-					y, _ := boolEdges(x, x.Op == token.EQL)
-					pass = append(pass, y...)
-				}
-			}
-		})
-		var targets []ssa.Instruction
-		allInstrs(f, func(in ssa.Instruction) {
-			if call, ok := in.(*ssa.Call); ok {
-				n := calleeName(&call.Call)
-				if strings.HasSuffix(n, ".SignWithAlgorithm") || strings.HasSuffix(n, ").Sign") || strings.HasSuffix(n, ".SignPKCS1v15") || strings.HasSuffix(n, "signWithAlgorithm") {
-					targets = append(targets, call)
-				}
-			}
-		})
-		if len(targets) == 0 {
-			c.ok("C40.signer", name, f, "no delegation in this method body (handled by callee)")
-			continue
-		}
-		c.mustCross("C40.signer", name, f, targets, pass, "a supported-algorithm test on the requested algorithm")
-	}
-}
-
-// fromParam: v is the parameter or a phi that can carry it.
-func fromParam(v ssa.Value, p *ssa.Parameter) bool {
-	if v == ssa.Value(p) {
 		return true
 	}
-	if ph, ok := v.(*ssa.Phi); ok {
-		for _, e := range ph.Edges {
-			if e == ssa.Value(p) {
-				return true
+	for _, T := range skTypes {
+		st := derefStruct(T)
+		if st == nil {
+			continue
+		}
+		typ := typeName(T)
+		for i := 0; i < st.NumFields(); i++ {
+			if c40ScalarKind(st.Field(i).Type()) != "bool" {
+				continue
+			}
+			field := st.Field(i).Name()
+			for _, f := range c.funcsOfPkg("ssh") {
+				for _, s := range storesTo(f, typ, field) {
+					fresh := false
+					if fa, ok := s.Addr.(*ssa.FieldAddr); ok {
+						fresh = c40Fresh(fa.X, 0)
+					}
+					c.check(under(f, 0) && fresh, "C40.no-touch-writer", typ+"."+field+" in "+fnName(f), s, "set only under skKeyWithoutUP, on a fresh copy", field+" is written outside skKeyWithoutUP (and its private helpers) or on a shared key value")
+				}
 			}
 		}
 	}
+}
+
+// c40Fresh: v points to an object allocated for this very use: a heap
+// allocation in the function itself, or the result of a helper of the same
+// package all of whose returns are such allocations (a clone helper).
+func c40Fresh(v ssa.Value, depth int) bool {
+	switch x := v.(type) {
+	case *ssa.Alloc:
+		return x.Heap
+	case *ssa.Call:
+		g := x.Call.StaticCallee()
+		if g == nil || depth > 2 || len(g.Blocks) == 0 || x.Parent() == nil || g.Pkg != x.Parent().Pkg {
+			return false
+		}
+		rs := returnsOf(g)
+		if len(rs) == 0 {
+			return false
+		}
+		for _, r := range rs {
+			if len(r.Results) != 1 || !c40Fresh(r.Results[0], depth+1) {
+				return false
+			}
+		}
+		return true
+	}
 	return false
+}
+
+func c40Signers(c *Ctx, m *c40Model) {
+	for _, sg := range []struct {
+		name    string
+		ownList bool
+	}{{"(*wrappedSigner).SignWithAlgorithm", false}, {"(*multiAlgorithmSigner).SignWithAlgorithm", true}} {
+		f := c.fnOpt("ssh", sg.name)
+		if f == nil {
+			c.fail("anchor", "ssh."+sg.name, nil, "function not found")
+			continue
+		}
+		m.checkSigner(f, sg.name, sg.ownList)
+	}
 }
